@@ -91,6 +91,10 @@ fn op_kind(op: &Op) -> String {
 pub fn check(plan: &Plan, rec: &RunRecord, prop: &'static str, proxy: bool, cells: &mut Cells) -> Vec<Finding> {
     let p = prop.to_lowercase();
     let mut out = vec![];
+    if !rec.code_ids0.is_empty() && rec.code_ids0 != rec.code_ids {
+        out.push(Finding::new(prop, &format!("{p}.code_ids"), 0, format!("storing the same programs gave code ids {:?} in world 0 but {:?} in world 1", rec.code_ids0, rec.code_ids)));
+        return out;
+    }
     let ops: Vec<&Op> = plan.setup.iter().chain(plan.ops.iter()).collect();
     for (i, r) in rec.ops.iter().enumerate() {
         let Some(o1) = &r.outcome1 else { continue };
@@ -152,6 +156,8 @@ pub fn check(plan: &Plan, rec: &RunRecord, prop: &'static str, proxy: bool, cell
                     out.push(Finding::new(prop, &format!("{p}.error_class"), r.idx, format!("[{kind}] error classes differ: world 0 {} / world 1 {}", err_brief(e0), err_brief(e1))));
                 }
             }
+            // user code panicked in both worlds alike
+            (Outcome::Panic(a), Outcome::Panic(b)) if a.contains(rt::script::SCRIPTED_PANIC) && b.contains(rt::script::SCRIPTED_PANIC) => {}
             (Outcome::Panic(pm), other) => {
                 diverged = true;
                 let what = match other {
